@@ -58,6 +58,7 @@ func main() {
 	outlier := smicro.WithEnableOutlier(func(context.Context) bool { return true })
 	for _, cs := range probe.Plan() {
 		custom, sc := cs.Custom, cs.Sc
+		probe.SetCase(cs)
 		// server handler wrapper
 		{
 			r := probe.New("micro/server.go:NewHandlerWrapper.func1.func1", sc, true)
@@ -76,24 +77,44 @@ func main() {
 			})
 			r.Finish()
 		}
-		// server stream wrapper (the wrapper never calls a handler itself)
-		{
+		// server stream wrapper (the wrapper never calls a handler itself).  The custom-fallback case is run as two
+		// single-option variants, the regression for the option guards repaired by /repo d41329a:
+		//   streamOnly: only WithStreamServerBlockFallback is configured -> that fallback must be what rejects a blocked
+		//               stream (the default `stream.Send(blockErr)` does NOT count here);
+		//   unaryOnly:  only WithServerBlockFallback (the unary option) is configured -> the stream wrapper must fall back
+		//               to its default rejection, not call a nil stream fallback.
+		for _, variant := range []string{"streamOnly", "unaryOnly"} {
+			if !custom && variant == "unaryOnly" {
+				continue // the default-options case is run once
+			}
 			r := probe.New("micro/server.go:NewStreamWrapper.func1", sc, true)
-			var opts []smicro.Option
 			if custom {
-				// NewStreamWrapper tests serverBlockFallback before calling streamServerBlockFallback: both must be set
+				r.Variant = variant
+			}
+			var opts []smicro.Option
+			// a custom resource extractor as well (guarded the same way): it must be the one that names the resource
+			if custom && variant == "streamOnly" {
 				opts = append(opts,
-					smicro.WithServerBlockFallback(func(context.Context, server.Request, *base.BlockError) error { return nil }),
 					smicro.WithStreamServerBlockFallback(func(s server.Stream, _ *base.BlockError) server.Stream {
 						r.Fallback()
 						return s
-					}))
+					}),
+					smicro.WithStreamServerResourceExtractor(func(server.Stream) string { return r.Res }))
 			}
-			st := &sstream{req: sreq{name: r.Res}}
+			if custom && variant == "unaryOnly" {
+				opts = append(opts,
+					smicro.WithServerBlockFallback(func(context.Context, server.Request, *base.BlockError) error { return nil }),
+					smicro.WithServerResourceExtractor(func(context.Context, server.Request) string { return "unary-extractor-must-not-be-used" }))
+			}
+			name := r.Res
+			if custom && variant == "streamOnly" {
+				name = "request-method-must-not-be-used" // the stream extractor has to override it
+			}
+			st := &sstream{req: sreq{name: name}}
 			r.Guard(func() {
 				_ = smicro.NewStreamWrapper(opts...)(st)
 				for _, v := range st.sent {
-					if e, ok := v.(error); ok && probe.IsBlockError(e) {
+					if e, ok := v.(error); ok && probe.IsBlockError(e) && !(custom && variant == "streamOnly") {
 						r.Rejected()
 					}
 				}
